@@ -205,12 +205,28 @@ def proof_stage(pid, tier):
 
 # --------------------------------------------------------------------------- runners
 
+MODEL_TIMEOUT = int(os.environ.get("VERIF_MODEL_TIMEOUT", "900"))
+
+
 def run_model(lines):
     """lines: list of case lines. Returns dict id -> outcome text."""
     if not lines:
         return {}
-    p = subprocess.run([GDMODEL, "run"], input="\n".join(lines) + "\n", stdout=subprocess.PIPE,
-                       stderr=subprocess.PIPE, text=True)
+    text = "\n".join(lines) + "\n"
+    try:
+        p = subprocess.run([GDMODEL, "run"], input=text, stdout=subprocess.PIPE,
+                           stderr=subprocess.PIPE, text=True, timeout=MODEL_TIMEOUT)
+    except subprocess.TimeoutExpired:
+        # the model driver is total; a run this long is a defect of the machinery, name the line
+        culprit = None
+        for l in lines:
+            try:
+                subprocess.run([GDMODEL, "run"], input=l + "\n", stdout=subprocess.PIPE, stderr=subprocess.PIPE,
+                               text=True, timeout=20)
+            except subprocess.TimeoutExpired:
+                culprit = l
+                break
+        raise RuntimeError("model driver did not finish within %ds; slow line: %s" % (MODEL_TIMEOUT, (culprit or "?")[:400]))
     if p.returncode != 0:
         raise RuntimeError("model driver failed: " + p.stderr[-2000:])
     out = {}
